@@ -187,7 +187,7 @@ def cmd_replay(pid, path):
     runners.preload()
     with open(path) as f:
         rec = json.load(f)
-    res = campaign.replay_case(rec.get("property", pid), rec["case"], slot=rec.get("slot", 999002))
+    res = campaign.replay_case(rec.get("property", pid), rec["case"], slot=rec.get("slot", 999002), ns=rec.get("ns"))
     if res["verdict"] == "violation":
         out(f"VIOLATION property={pid} replay={path}")
         out(f"  class={res['violation']['class']} detail={json.dumps(res['violation']['detail'])[:1500]}")
